@@ -52,4 +52,21 @@ theorem descendI_unfold (st : Store) : ∀ (rest : List Int) (n j : Nat), rest.l
               simp only [Option.map_some]
               exact ih m j' hn
 
+/-- The unfolding of an existing cell copies its fields (base case of the relation a lock-step
+simulation of the heap walk against the tree checker starts from). -/
+theorem unfoldItem_fields (st : Store) (n i : Nat) (h : HItem) (hi : st.items[i]? = some h) :
+    (unfoldItem st n i).id = h.id ∧ (unfoldItem st n i).rule = h.rule ∧ (unfoldItem st n i).args = h.args ∧
+    (unfoldItem st n i).prevs = h.prevs ∧ (unfoldItem st n i).th = h.th := by
+  cases n <;> simp [unfoldItem, hi]
+
+/-- One level down the unfolding of a cell holds the unfoldings of the entries of its block. -/
+theorem unfoldItem_sub (st : Store) (n i : Nat) (h : HItem) (hi : st.items[i]? = some h) :
+    (unfoldItem st (n + 1) i).sub = (h.sub.bind (st.proofs[·]?)).map (fun l => l.map (unfoldItem st n)) := by
+  rw [unfoldItem_succ]; simp [hi]
+
+/-- A reference to a cell that does not exist unfolds to an item whose id no position matches. -/
+theorem unfoldItem_dangling (st : Store) (n i : Nat) (hi : st.items[i]? = none) (pos : List Nat) (hp : pos ≠ []) :
+    (unfoldItem st n i).id ≠ posId pos := by
+  cases n <;> simp [unfoldItem, hi, posId, hp]
+
 end Holpy.C02
